@@ -240,6 +240,9 @@ pub fn initial_states() -> Vec<RVal> {
         RVal::u(0),
         RVal::i(-129),
         RVal::obj(vec![("a", RVal::Null), ("b", RVal::obj(vec![("c", RVal::Null), ("d", RVal::arr(vec![RVal::Null]))]))]),
+        // keys whose byte order differs from their length order and from their case-folded order
+        RVal::obj(vec![("aa", RVal::u(1)), ("b", RVal::s("two"))]),
+        RVal::obj(vec![("", RVal::Null), ("A", RVal::u(1)), ("a", RVal::u(2)), ("ab", RVal::arr(vec![RVal::u(3)])), ("b", RVal::obj(vec![("ba", RVal::Null), ("z", RVal::u(70000))]))]),
         // larger seeds (above the expansion cap: their successors are judged, not expanded): builders
         // and name lookups behave differently above a few dozen members
         RVal::Obj((0..40).map(|i| (format!("k{:02}", i), RVal::u(i))).collect()),
